@@ -509,7 +509,7 @@ impl PtConn {
             delay += pt.drng.below(max + 1);
         }
         let seq = io.seq();
-        let mut fire = |pt: &mut PtShared, kind: FaultKind| {
+        let fire = |pt: &mut PtShared, kind: FaultKind| {
             pt.fired.push(FaultFired {
                 conn: self.conn,
                 point,
